@@ -218,6 +218,45 @@ def run(ctx):
                            f'{brute}', case)
             elif shapely.Polygon(q).area > 0 and brute != mh:
                 ctx.report('correspondence', f'model hits {mh} differ from GEOS {brute}', case, found_input=False)
+        # ---- the older spelling of the spatial index (Convention.spatial_index, still offered): every item it returns names
+        # its cell - linear position, native index and polygon belong together - and the candidates cover every cell that meets
+        # the query
+        if queries:
+            with warnings.catch_warnings():
+                warnings.simplefilter('ignore')
+                si = attempt(lambda: ems.spatial_index)
+            ctx.count('spatial_index (older spelling)')
+            if si[0] != 'ok':
+                ctx.report('property', f'spatial_index failed: {si[1]}', {'dataset': label})
+            else:
+                for q in queries[:3]:
+                    geom = shapely.Polygon(q) if shapely.Polygon(q).area > 0 else shapely.LineString(q[:2] + [q[2]])
+                    case = {'dataset': label, 'query_box': q, 'through': 'spatial_index'}
+                    with warnings.catch_warnings():
+                        warnings.simplefilter('ignore')
+                        items = attempt(lambda: list(si[1].query(geom)))
+                    if items[0] != 'ok':
+                        ctx.report('property', f'spatial_index.query failed: {items[1]}', case)
+                        break
+                    brute = [n for n, p in enumerate(polys) if p is not None and shapely.Polygon(p).intersects(geom)]
+                    got_lin = []
+                    ibad = None
+                    for poly_, item in items[1]:
+                        li = int(item.linear_index)
+                        got_lin.append(li)
+                        if not (0 <= li < len(polys)) or polys[li] is None:
+                            ibad = f'an item names position {li}, which has no polygon'
+                        elif same_ring(pm.ring_of(item.polygon), polys[li]) is False or same_ring(pm.ring_of(poly_), polys[li]) is False:
+                            ibad = f'the item for position {li} carries another cell\'s polygon'
+                        elif canon_native(flav, item.index) != canon_native(flav, ems.wind_index(li)):
+                            ibad = f'the item for position {li} carries the native index {item.index}'
+                        if ibad:
+                            break
+                    if not ibad and not set(brute) <= set(got_lin):
+                        ibad = f'the candidates {sorted(got_lin)} leave out cells that meet the query ({brute})'
+                    if ibad:
+                        ctx.report('property', 'spatial_index: ' + ibad, case)
+                        break
 
     # reading a dataset leaves it as it was, and a second dataset over the same arrays (dataset.copy(), a shallow copy) has
     # the same cells at the same positions
